@@ -204,6 +204,44 @@ class TreeScenario:
         return out
 
 
+def builtin_time_oracle(ctx):
+    """the library's own text-dependent format constraints (932-935, what UB1-UB3 expand to) on sibling elements whose different inputs denote the
+    same instant: each element's verdict and message are about ITS input (implementation-side oracle; these evaluators are not in the model)"""
+    from datetime import datetime
+
+    from ahbicht.validation.validation import validate_segment
+
+    inputs = ["2024-05-01T10:00:00+00:00", "2024-05-01T12:00:00+02:00", "2024-05-01T05:00:00-05:00", "2024-05-01T15:30:00+05:30", "2023-12-31T23:00:00+00:00"]
+    keys = ["932", "932", "934", "933", "932"]
+    n = 0
+    for order in (list(range(5)), [4, 3, 2, 1, 0], [1, 0, 3, 2, 4]):
+        els = [ft(f"T{i}", inputs[i], [keys[i]], mark="X") for i in order]
+        H = harness()
+        H.reset(rc={}, hints={}, fc_expected={}, pkg=PKG, yields={})
+        obj = build(seg("S", "Muss", els))
+
+        async def main(obj=obj):
+            H.text_var.set("text of the caller")
+            return await validate_segment(obj)
+
+        out = H.run(main)
+        n += 1
+        inp = {"kind": "validate_segment", "scenario": "builtin-time", "params": {"inputs": [inputs[i] for i in order], "keys": [keys[i] for i in order]}, "yield_vector": []}
+        if out[0] != "ok":
+            ctx.fail(f"builtin-time|{order}|raises", inp, "a validation result", repr(out[1]), "oracle: built-in time constraints on sibling elements")
+            continue
+        by_d = {r.discriminator: r.validation_result for r in out[1]}
+        for i in order:
+            r = by_d.get(f"T{i}")
+            own = datetime.fromisoformat(inputs[i]).isoformat()
+            is_limit = inputs[i].startswith("2023-12-31T23:00:00")   # 00:00 German local time on 2024-01-01
+            ok = r is not None and r.format_validation_fulfilled is is_limit and (is_limit or (r.format_error_message is not None and own in r.format_error_message))
+            if not ok:
+                ctx.fail(f"builtin-time|{order}|T{i}", dict(inp, element=f"T{i}"), f"fulfilled={is_limit}" + ("" if is_limit else f", message about '{own}'"),
+                         repr(r), "oracle: the element's result is about its own input (built-in time constraint, siblings with the same instant)")
+    return n
+
+
 def scenarios(ctx):
     rng = ctx.rng
     rc = {"1": "FULFILLED", "2": "FULFILLED", "3": "UNFULFILLED", "7": "FULFILLED", "8": "UNFULFILLED"}
@@ -299,6 +337,7 @@ def run(ctx):
                 meta.append((sc.name, list(vec), term, obs))
             if vi == 1:
                 ctx.sample({"scenario": sc.name, "entry_point": sc.kind, "tree": sc.spec, "yield_vector": list(vec), "result": repr(out)[:400]})
+    n_runs += builtin_time_oracle(ctx)
     n, bad, err = runner.run_case_files("C15", IMPORTS, "async_case", "async_check", terms, shard=150)
     if err:
         ctx.broke("correspondence (validation skeleton) could not be evaluated in Coq", err)
